@@ -1,3 +1,3 @@
 From Coq Require Import Extraction ExtrOcamlBasic.
-From Oxia.Coord Require Import Model Driver.
-Extraction "coord_model.ml" select_new_leader candidates new_term_quorum drive node_run node_init fixed shipped.
+From Oxia.Coord Require Import Model Driver Config ConfigDriver.
+Extraction "coord_model.ml" select_new_leader candidates new_term_quorum drive node_run node_init fixed shipped cfg_drive cfixed.
